@@ -514,6 +514,7 @@ class Run:
         for e in merged:
             e.pop('_g', None)
             self.events.append(e)
+        self._note_locks(sched)
         self.par_info.append({'yields': list(sched.yields), 'switches': sched.switches, 'deadlock': sched.deadlock,
                               'errors': [repr(x) for x in errors if x is not None],
                               'straggler': {'before': len(flat), 'fenced': len(after)}})
@@ -573,11 +574,22 @@ class Run:
             for e in blocks[i]:
                 e.pop('_g', None)
                 self.events.append(e)
+        self._note_locks(sched)
         self.par_info.append({'yields': list(sched.yields), 'switches': sched.switches, 'deadlock': sched.deadlock,
                               'errors': [repr(x) for x in errors if x is not None], 'order': order})
         if sched.deadlock or any(x is not None for x in errors):
             # deadlock or an exception escaping the harness wrapper: recorded as an event the spec rejects
             self.ev(ev='par_fail', deadlock=sched.deadlock, errors=[repr(x)[:200] for x in errors if x is not None])
+
+    def _note_locks(self, sched):
+        """Lock-order evidence (C09): which lock roles were acquired while which were held."""
+        if not hasattr(self, 'lock_edges'):
+            self.lock_edges, self.lock_same = set(), set()
+        self.lock_edges |= sched.lock_edges
+        # nested locks of one role: keep only whether both orders of one pair of instances were seen
+        pairs = sched.same_role_pairs
+        for role, a, b in pairs:
+            self.lock_same.add((role, (role, b, a) in pairs))
 
     # ----------------------------------------------------------------- steps
     def do_build(self, step):
@@ -739,6 +751,9 @@ class Run:
             out['fault_fired'] = self.interposer.fault_fired
         if self.par_info:
             out['par'] = self.par_info
+        if getattr(self, 'lock_edges', None) is not None:
+            out['lock_edges'] = sorted(self.lock_edges)
+            out['lock_same'] = sorted(self.lock_same)
         if getattr(self, 'unjudged', False):
             out['unjudged'] = True
         return out
